@@ -1,6 +1,6 @@
 (* ParseProofs3.v — C05: parse (print_toks e) = e on the fragment.  Part 3: the main induction. *)
 From Coq Require Import Lia String.
-From Cedar Require Import Unescape UnescapeProofs Printable ExprInd ParseProofs ParseProofs2.
+From Cedar Require Import Unescape UnescapeProofs Printable ExprInd SortProofs ParseProofs ParseProofs2.
 Open Scope N_scope.
 
 Lemma level_le7 e : (level e <= 7)%nat.
@@ -90,6 +90,31 @@ Proof.
   intros H. destruct fn as [|b [|? ?]]; try (cbn in H; discriminate H). unfold is_function_name, function_style_fns in H. cbn [map existsb] in H.
   repeat (apply orb_true_iff in H; destruct H as [H|H]); try discriminate;
     apply str_eqb_eq in H; subst b; eexists; repeat split; reflexivity.
+Qed.
+
+Lemma need_list_r l :
+  (fix go (l : list (str * expr)) : nat := match l with [] => O | kv :: l' => (S (need (snd kv)) + go l')%nat end) l = needs_r l.
+Proof. induction l as [|x l IH]; [reflexivity|]. cbn [needs_r]. rewrite <- IH. reflexivity. Qed.
+Lemma needs_r_In kv l : In kv l -> (need (snd kv) < needs_r l)%nat.
+Proof. induction l as [|x l IH]; intros H; [contradiction|]. cbn [needs_r]. destruct H as [->|H]; [lia|]. specialize (IH H). lia. Qed.
+Lemma needs_r_length l : (length l <= needs_r l)%nat.
+Proof. induction l as [|x l IH]; cbn [length needs_r]; lia. Qed.
+
+Lemma recinits_nil rec n rest : recinits_loop rec n (TRBrace :: rest) = Some ([], rest).
+Proof. destruct n; reflexivity. Qed.
+Lemma recinits_cons rec k ts rk ts1 key rv ts2 v :
+  match ts with TRBrace :: _ | [] => False | _ => True end -> starts_with_if ts = false ->
+  rec ts = Some (rk, TColon :: ts1) -> into_valid_attr rk = Some key ->
+  rec ts1 = Some (rv, ts2) -> into_expr rv = Some v ->
+  recinits_loop rec (S k) ts =
+    match ts2 with
+    | TComma :: ts3 => match recinits_loop rec k ts3 with Some (kvs, r) => Some ((key, v) :: kvs, r) | None => None end
+    | TRBrace :: ts3 => Some ([(key, v)], ts3)
+    | _ => None
+    end.
+Proof.
+  intros Hh Hif H1 H2 H3 H4. destruct ts as [|t ts']; [contradiction|].
+  destruct t; try contradiction; cbn [recinits_loop]; rewrite Hif, H1, H2, H3, H4; reflexivity.
 Qed.
 
 Section Main.
@@ -436,6 +461,76 @@ Section Main.
     induction 1 as [|x l Hx HF IH]; intros H1 H2; [constructor|].
     cbn [forallb] in H1, H2. apply andb_true_iff in H1. apply andb_true_iff in H2.
     destruct H1 as [A1 B1]. destruct H2 as [A2 B2]. constructor; [split; [exact A2|apply Hx; assumption]|apply IH; assumption].
+  Qed.
+
+  Definition entry (kv : str * expr) : list token := key_tok np ge (fst kv) :: TColon :: PT (snd kv).
+  Lemma PT_record items : PT (RecordE items) = TLBrace :: commas (map entry items) ++ [TRBrace].
+  Proof.
+    cbn [print_toks]. f_equal. f_equal. f_equal.
+    induction items as [|[k v] l IH]; [reflexivity|]. cbn [map entry fst snd]. rewrite <- IH. reflexivity.
+  Qed.
+
+  Lemma key_at0 f k rest : wf_str k = true -> follow_ok 0 rest = true ->
+    exists rk, R (S f) (key_tok np ge k :: rest) = Some (rk, rest) /\ into_valid_attr rk = Some k.
+  Proof.
+    intros Hk Hr. unfold key_tok. destruct (is_normalized_ident k) eqn:En.
+    - pose proof (normalized_unreserved k En) as Hu. destruct (unreserved_not_kw k Hu) as (Kt & Kf & Kif).
+      assert (follow_ok 7 rest = true) as H7 by (eapply follow_mono; [exact Hr|lia]).
+      destruct (follow7_no_access rest H7) as [Ha Hnp].
+      assert (exists rk, parse_primary (R f) f (TIdent k :: rest) = Some (rk, rest) /\ into_valid_attr rk = Some k)
+        as (rk & Hprim & Hv).
+      { cbn [parse_primary]. rewrite parse_path_nil by exact Hnp. rewrite Kt, Kf. destruct (var_of_ident k) eqn:Ev.
+        - eexists. split; [reflexivity|]. cbn [into_valid_attr]. rewrite (var_of_ident_show k v Ev). reflexivity.
+        - rewrite Hu. eexists. split; reflexivity. }
+      exists rk. split; [|exact Hv]. cbn [parse_expr]. change (parse_expr_body (R f) f) with (parse_at 0 (R f) f).
+      apply (descend (R f) f 7 0); try lia; try exact Hr; try reflexivity.
+      + cbn [parse_at]. apply pm_noacc; assumption.
+      + cbn [not_if_head]. rewrite Kif. reflexivity.
+    - exists (EStr (escape_debug np ge k)). split; [|cbn [into_valid_attr]; apply unescape_opt_escape; exact Hk].
+      cbn [parse_expr]. unfold tstr. apply (str_tok_at (R f) f 0); [lia|exact Hr].
+  Qed.
+
+  Lemma recinits_ok items f :
+    Forall (fun kv => wf_str (fst kv) = true /\ printable (snd kv) = true /\ main (snd kv)) items ->
+    (forall kv, In kv items -> (need (snd kv) < f)%nat) ->
+    forall n rest, (length items <= n)%nat ->
+    recinits_loop (R (S f)) n (commas (map entry items) ++ TRBrace :: rest) = Some (items, rest).
+  Proof.
+    intros HF. induction HF as [|[k v] l (Hk & Hp & M) HF IH]; intros Hn n rest Hl.
+    - cbn [map commas app]. apply recinits_nil.
+    - destruct n as [|n']; [cbn in Hl; lia|]. cbn [fst snd] in *.
+      assert (need v < f)%nat as Hnv by (apply (Hn (k, v)); left; reflexivity).
+      assert (match key_tok np ge k :: TColon :: PT v with TRBrace :: _ | [] => False | _ => True end) as Hh
+        by (unfold key_tok; destruct (is_normalized_ident k); exact I).
+      assert (forall X, starts_with_if (key_tok np ge k :: X) = false) as Hif.
+      { intros X. unfold key_tok. destruct (is_normalized_ident k) eqn:En; [|reflexivity].
+        cbn [starts_with_if]. apply (unreserved_not_kw k (normalized_unreserved k En)). }
+      destruct l as [|kv2 l'].
+      + cbn [map commas entry fst snd app]. rewrite <- ?app_comm_cons.
+        destruct (key_at0 f k (TColon :: PT v ++ TRBrace :: rest) Hk eq_refl) as (rk & Hrk & Hv).
+        erewrite recinits_cons; [|exact Hh|apply Hif|exact Hrk|exact Hv
+                                 |apply (top v Hp M (S f)); [lia|reflexivity]|apply into_expr_sp; exact Hp].
+        reflexivity.
+      + cbn [map]. change (commas (entry (k, v) :: entry kv2 :: map entry l'))
+          with (entry (k, v) ++ TComma :: commas (map entry (kv2 :: l'))).
+        rewrite <- app_assoc. cbn [entry fst snd app].
+        destruct (key_at0 f k (TColon :: PT v ++ TComma :: commas (map entry (kv2 :: l')) ++ TRBrace :: rest) Hk eq_refl)
+          as (rk & Hrk & Hv).
+        erewrite recinits_cons; [|exact Hh|apply Hif|exact Hrk|exact Hv
+                                 |apply (top v Hp M (S f)); [lia|reflexivity]|apply into_expr_sp; exact Hp].
+        cbv beta iota. rewrite IH; [reflexivity| |cbn [length] in *; lia].
+        intros x Hx. apply Hn. right. exact Hx.
+  Qed.
+
+  Lemma Forall_pm_r l : Forall (fun kv => in_fragment (snd kv) = true -> printable (snd kv) = true -> main (snd kv)) l ->
+    forallb (fun kv => in_fragment (snd kv)) l = true ->
+    forallb (fun kv => wf_str (fst kv) && printable (snd kv)) l = true ->
+    Forall (fun kv => wf_str (fst kv) = true /\ printable (snd kv) = true /\ main (snd kv)) l.
+  Proof.
+    induction 1 as [|x l Hx HF IH]; intros H1 H2; [constructor|].
+    cbn [forallb] in H1, H2. apply andb_true_iff in H1. apply andb_true_iff in H2.
+    destruct H1 as [A1 B1]. destruct H2 as [A2 B2]. apply andb_true_iff in A2. destruct A2 as [W Pp].
+    constructor; [split; [exact W|split; [exact Pp|apply Hx; assumption]]|apply IH; assumption].
   Qed.
 
   Theorem main_all e : in_fragment e = true -> printable e = true -> main e.
@@ -900,6 +995,19 @@ Section Main.
       constructor; try exact I; try (intros; reflexivity).
       * apply member_A; [reflexivity|reflexivity|exact G].
       * intros _. apply member_B. exact G.
+    - (* RecordE *)
+      apply andb_true_iff in Hp. destruct Hp as [Hpa Hsorted].
+      pose proof (Forall_pm_r items IHitems Hf Hpa) as HF. clear IHitems.
+      assert (need (RecordE items) = S (needs_r items)) as En by (cbn [need]; rewrite need_list_r; reflexivity).
+      assert (Gform (RecordE items)) as G.
+      { apply prim_G. intros f Hn rest. rewrite En in *. rewrite PT_record. cbn [app]. rewrite <- app_assoc. cbn [app parse_primary].
+        destruct f as [|f']; [lia|].
+        rewrite recinits_ok; [|exact HF| |pose proof (needs_r_length items); lia].
+        - rewrite (nodup_sorted items Hsorted), (sort_sorted items Hsorted). reflexivity.
+        - intros x Hx. pose proof (needs_r_In x items Hx). lia. }
+      constructor; try exact I; try (intros; rewrite PT_record; reflexivity).
+      * apply member_A; [reflexivity|reflexivity|exact G].
+      * intros _. apply member_B. exact G.
   Qed.
 End Main.
 
@@ -922,6 +1030,18 @@ Section Final.
     - cbn [map commas needs]. lia.
     - cbn [map]. change (commas (PT x :: PT y :: map PT l')) with (PT x ++ TComma :: commas (map PT (y :: l'))).
       rewrite app_length. cbn [length]. cbn [needs] in *. lia.
+  Qed.
+
+  Lemma commas_len_r l : Forall (fun kv => in_fragment (snd kv) = true -> (need (snd kv) <= length (PT (snd kv)))%nat) l ->
+    forallb (fun kv => in_fragment (snd kv)) l = true -> (needs_r l <= length (commas (map (entry np ge) l)) + 1)%nat.
+  Proof.
+    induction 1 as [|x l Hx HF IH]; intros Hf; [cbn; lia|].
+    cbn [forallb] in Hf. apply andb_true_iff in Hf. destruct Hf as [Hfx Hfl].
+    specialize (Hx Hfx). specialize (IH Hfl). destruct l as [|y l'].
+    - cbn [map commas needs_r]. unfold entry. cbn [length]. lia.
+    - cbn [map]. change (commas (entry np ge x :: entry np ge y :: map (entry np ge) l'))
+        with (entry np ge x ++ TComma :: commas (map (entry np ge) (y :: l'))).
+      rewrite app_length. unfold entry at 1. cbn [length]. cbn [needs_r] in *. lia.
   Qed.
 
   Lemma need_le_length e : in_fragment e = true -> (need e <= length (PT e))%nat.
@@ -978,21 +1098,46 @@ Section Final.
       assert (need (SetE items) = S (needs items)) as En by (cbn [need]; rewrite need_list; reflexivity).
       rewrite En. pose proof (commas_len items IHitems Hf). cbn [print_toks].
       repeat (rewrite app_length || cbn [length]). lia.
+    - (* RecordE *)
+      assert (need (RecordE items) = S (needs_r items)) as En by (cbn [need]; rewrite need_list_r; reflexivity).
+      rewrite En. pose proof (commas_len_r items IHitems Hf). rewrite PT_record.
+      repeat (rewrite app_length || cbn [length]). lia.
+  Qed.
+
+  Lemma printable_in_fragment e : printable e = true -> in_fragment e = true.
+  Proof.
+    induction e as [p|v|s|n ty|c IHc t IHt e IHe|a IHa b IHb|a IHa b IHb|op a IHa|op a IHa b IHb
+                   |fn args IHargs|a IHa k|a IHa k|a IHa p|a IHa t|items IHitems|items IHitems] using expr_ind';
+      intros Hp; cbn [printable in_fragment] in *; try reflexivity; try discriminate;
+      repeat match goal with H : (_ && _) = true |- _ => apply andb_true_iff in H; destruct H end;
+      try (repeat (apply andb_true_iff; split); auto; fail).
+    - (* ExtCall *)
+      match goal with H : forallb printable args = true |- _ => revert H end. clear -IHargs.
+      induction IHargs as [|x l Hx HF IH]; intros H; [reflexivity|]. cbn [forallb] in *.
+      apply andb_true_iff in H. destruct H as [A B]. apply andb_true_iff. split; [apply Hx; exact A|apply IH; exact B].
+    - (* SetE *)
+      revert Hp. induction IHitems as [|x l Hx HF IH]; intros H; [reflexivity|]. cbn [forallb] in *.
+      apply andb_true_iff in H. destruct H as [A B]. apply andb_true_iff. split; [apply Hx; exact A|apply IH; exact B].
+    - (* RecordE *)
+      match goal with H : forallb _ items = true |- _ => revert H end. clear -IHitems.
+      induction IHitems as [|x l Hx HF IH]; intros H; [reflexivity|]. cbn [forallb] in *.
+      apply andb_true_iff in H. destruct H as [A B]. apply andb_true_iff in A. destruct A as [_ A].
+      apply andb_true_iff. split; [apply Hx; exact A|apply IH; exact B].
   Qed.
 
   Theorem expr_roundtrip_rest e rest :
-    printable e = true -> in_fragment e = true -> follow_ok 0 rest = true ->
+    printable e = true -> follow_ok 0 rest = true ->
     parse_expr (S (length (PT e ++ rest))) (PT e ++ rest) = Some (SP e, rest) /\ into_expr (SP e) = Some e.
   Proof.
-    intros Hp Hf Hr. split; [|apply into_expr_sp; exact Hp].
+    intros Hp Hr. pose proof (printable_in_fragment e Hp) as Hf. split; [|apply into_expr_sp; exact Hp].
     apply (top np ge e Hp (main_all np ge e Hf Hp)); [|exact Hr].
     pose proof (need_le_length e Hf). rewrite app_length. lia.
   Qed.
 
   Theorem expr_roundtrip e :
-    printable e = true -> in_fragment e = true -> parse_expr_toks (PT e) = Some e.
+    printable e = true -> parse_expr_toks (PT e) = Some e.
   Proof.
-    intros Hp Hf. destruct (expr_roundtrip_rest e [] Hp Hf eq_refl) as [H Hi].
+    intros Hp. destruct (expr_roundtrip_rest e [] Hp eq_refl) as [H Hi].
     rewrite app_nil_r in H. unfold parse_expr_toks. rewrite H. exact Hi.
   Qed.
 End Final.
